@@ -384,12 +384,16 @@ void drive(const Plan &p, uint64_t salt, int exhaustive_level, size_t eps, bool 
 template<typename F>
 void drive_long_levels(const Plan &p, uint64_t salt, size_t nmin, size_t nmax, F &&run) {
     Rng rng(p.seed ^ salt);
-    const std::vector<std::string> kinds = {"random", "steps", "runs", "sawtooth"};
+    const std::vector<std::string> kinds = {"random", "steps", "runs", "sawtooth", "clusters_irregular", "clusters_big"};
     int reps = p.tier == "quick" ? 1 : 4;
     for (int rep = 0; rep < reps; ++rep)
         for (size_t i = 0; i < kinds.size(); ++i) {
-            int where = std::vector<int>{0, 2, 5, 1}[(i + (size_t) rep) % 4];
-            VPlan pl{kinds[i], nmin + rng.below(nmax - nmin), where, {kinds[i], "long_levels"}, rng.next(), {}};
+            bool cl = kinds[i] == "clusters_irregular" || kinds[i] == "clusters_big";
+            int where = cl ? (int) (i % 2) : std::vector<int>{0, 2, 5, 1}[(i + (size_t) rep) % 4];
+            // clusters_big: a few clusters of more than a thousand keys each, so that one cluster alone fills several segments of the
+            // level above the bottom one (three levels, and a level-1 segment that ends where a huge gap begins)
+            size_t nn = kinds[i] == "clusters_big" ? 6000 + rng.below(3000) : nmin + rng.below(nmax - nmin);
+            VPlan pl{kinds[i], nn, where, {kinds[i], "long_levels"}, rng.next(), {}};
             run(pl);
         }
 }
